@@ -175,6 +175,7 @@ def call_nn(sg, op, a, T, variant=0):
         red = a["red"]
         if op in ("nll", "ce"):
             tgt = sg.Tensor(np.array(a["labels"], dtype=np.int64))
+            AUX.append(("labels", tgt, tgt.data.tobytes()))
         else:
             tgt = T[1]
         if red == "functional":
@@ -184,6 +185,10 @@ def call_nn(sg, op, a, T, variant=0):
         cls = {"mse": nn.MSELoss, "bce": nn.BCELoss, "bcelogits": nn.BCEWithLogitsLoss, "nll": nn.NLLLoss, "ce": nn.CrossEntropyLoss}[op]
         return cls(reduction=red)(x, tgt)
     raise AssertionError("unknown nn op " + op)
+
+
+AUX = []      # tensors the caller builds besides the operands (class labels, running statistics used in inference mode):
+              # (name, tensor, bytes at creation) - the operation and its backward must leave them unchanged (C11)
 
 
 def nn_argclass(case):
@@ -238,6 +243,8 @@ class NNReplayer(RC.CatalogReplayer):
         self._jac_cache = {}
 
     def _call(self, sg, op, a, T, variant=0):
+        del AUX[:]
+        self.aux = AUX
         if op == "batch_norm":
             return self._bn(sg, a, T)
         if op in NN_OPS:
@@ -253,6 +260,9 @@ class NNReplayer(RC.CatalogReplayer):
         if a["running"]:
             rm = sg.Tensor(np.array([float(Fraction(q[0], q[1])) for q in case["rm"]], dtype=x.data.dtype))
             rv = sg.Tensor(np.array([float(Fraction(q[0], q[1])) for q in case["rv"]], dtype=x.data.dtype))
+            if not a["training"]:
+                AUX.append(("running_mean", rm, rm.data.tobytes()))
+                AUX.append(("running_var", rv, rv.data.tobytes()))
         eps = float(Fraction(case["eps"][0], case["eps"][1]))
         return sg.nn.functional.batch_norm(x, w, b, rm, rv, training=a["training"], momentum=0.1, eps=eps)
 
